@@ -47,7 +47,9 @@ WeekdayOfDays(n) == (n + 3) % 7
 
 Days(ts) == DaysFromCivil(ts.y, ts.m, ts.d)
 Weekday(ts) == WeekdayOfDays(Days(ts))
-AbsMin(ts) == Days(ts) * 1440 + ts.H * 60 + ts.M
+AbsMin(ts) == Days(ts) * 1440 + ts.H * 60 + ts.M      \* 32-bit in TLC: only for years below ~4000; comparisons use TsLT / TsLE
+TsLT(a, b) == Days(a) < Days(b) \/ (Days(a) = Days(b) /\ a.H * 60 + a.M < b.H * 60 + b.M)
+TsLE(a, b) == ~TsLT(b, a)
 
 Min(a, b) == IF a <= b THEN a ELSE b
 
@@ -60,7 +62,8 @@ FromAbsMin(a) == LET n == a \div 1440  r == a % 1440 IN FromDays(n, r \div 60, r
 \* ts + relativedelta(days=k)
 AddDays(ts, k) == FromDays(Days(ts) + k, ts.H, ts.M)
 \* ts + relativedelta(minutes=k) (hours = 60 k)
-AddMinutes(ts, k) == FromAbsMin(AbsMin(ts) + k)
+AddMinutes(ts, k) == \* overflow-free (days and minutes of the day kept apart)
+  LET tot == ts.H * 60 + ts.M + k  r == tot % 1440 IN FromDays(Days(ts) + (tot \div 1440), r \div 60, r % 60)
 \* ts + relativedelta(months=k): day clipped to the length of the target month
 AddMonths(ts, k) ==
   LET t  == ts.y * 12 + (ts.m - 1) + k
